@@ -6,9 +6,21 @@ when their skeletons are equal after a substitution on callee names (e.g. push <
 import re
 
 
-def skeleton(fn, subst=None, prog=None):
+COMMUTATIVE = {'Add', 'Mul', 'BitAnd', 'BitOr', 'BitXor', 'Eq', 'Ne', 'AddWithOverflow', 'MulWithOverflow', 'AddUnchecked', 'MulUnchecked'}
+MIRROR = {'Gt': 'Lt', 'Ge': 'Le'}
+
+
+def skeleton(fn, subst=None, prog=None, canonical=False):
+    """canonical=True: single-use-block temporaries are folded into the expressions that use them, operands of
+    commutative operators are sorted and `a > b` is written `b < a`, so two bodies that differ only in the
+    order of operands of pure operators have the same skeleton."""
     subst = subst or {}
     names = {}
+    for i in range(1, fn.argc + 1):
+        names[i] = 'p%d' % i
+    fold = {}
+    if canonical:
+        fold = _foldable_temps(fn)
 
     def loc(l):
         if l not in names:
@@ -31,6 +43,8 @@ def skeleton(fn, subst=None, prog=None):
 
     def operand(o):
         if o['k'] in ('copy', 'move'):
+            if not o['pl']['p'] and o['pl']['l'] in fold:
+                return '(' + rv(fold[o['pl']['l']]) + ')'
             return place(o['pl'])
         if o['k'] == 'const':
             if o.get('fnp'):
@@ -51,7 +65,13 @@ def skeleton(fn, subst=None, prog=None):
         if k in ('ref', 'rawptr'):
             return '&%s%s' % ('mut ' if r.get('mut') else '', place(r['pl']))
         if k == 'binop':
-            return '%s(%s,%s)' % (r['op'], operand(r['a']), operand(r['b']))
+            a, b, op = operand(r['a']), operand(r['b']), r['op']
+            if canonical:
+                if op in MIRROR:
+                    op, a, b = MIRROR[op], b, a
+                if op in COMMUTATIVE and b < a:
+                    a, b = b, a
+            return '%s(%s,%s)' % (op, a, b)
         if k == 'unop':
             return '%s(%s)' % (r['op'], operand(r['a']))
         if k == 'cast':
@@ -81,12 +101,18 @@ def skeleton(fn, subst=None, prog=None):
         lines = []
         for s in blk['st']:
             if s['k'] == 'assign':
+                if not s['pl']['p'] and s['pl']['l'] in fold:
+                    continue
                 lines.append('%s=%s' % (place(s['pl']), rv(s['rv'])))
         t = blk['term']
         k = t['k']
         if k == 'call':
             callee = t.get('resp') or t.get('calleep') or '?'
-            lines.append('%s=call %s(%s)->%s' % (place(t['dest']), sub(callee), ','.join(operand(a) for a in t['args']), bname.get(t['t'], 'X')))
+            if canonical and callee.startswith('core::panicking::'):
+                # the message of a failed assertion quotes the source text of its condition
+                lines.append('panic ' + callee.rsplit('::', 1)[-1])
+            else:
+                lines.append('%s=call %s(%s)->%s' % (place(t['dest']), sub(callee), ','.join(operand(a) for a in t['args']), bname.get(t['t'], 'X')))
         elif k == 'switch':
             lines.append('switch %s [%s] else %s' % (operand(t['d']), ','.join('%s:%s' % (v, bname.get(x, 'X')) for v, x in t['ts']), bname.get(t['o'], 'X')))
         elif k == 'assert':
@@ -98,6 +124,79 @@ def skeleton(fn, subst=None, prog=None):
         else:
             lines.append(k)
         out.append('%s: %s' % (bname[b], ' ; '.join(lines)))
+    return out
+
+
+def _foldable_temps(fn):
+    """{local: defining rvalue} for compiler temporaries defined once, by a pure rvalue, and used only later in
+    the defining block with no store to a non-temporary in between."""
+    ndefs = {}
+    for b in range(fn.n):
+        for s in fn.blocks[b]['st']:
+            if s['k'] == 'assign' and not s['pl']['p']:
+                ndefs[s['pl']['l']] = ndefs.get(s['pl']['l'], 0) + 1
+            elif s['k'] in ('assign', 'setdiscr'):
+                ndefs[s['pl']['l']] = ndefs.get(s['pl']['l'], 0) + 2
+        t = fn.blocks[b]['term']
+        if t['k'] == 'call':
+            ndefs[t['dest']['l']] = ndefs.get(t['dest']['l'], 0) + 2
+    user = set(fn.debug)
+
+    def uses(node, acc):
+        if isinstance(node, dict):
+            if 'l' in node and isinstance(node.get('p'), list):
+                acc.append(node['l'])
+                for x in node['p']:
+                    if x.get('k') == 'index':
+                        acc.append(x['l'])
+                return
+            for v in node.values():
+                uses(v, acc)
+        elif isinstance(node, list):
+            for v in node:
+                uses(v, acc)
+    use_blocks = {}
+    for b in range(fn.n):
+        acc = []
+        for s in fn.blocks[b]['st']:
+            if s['k'] == 'assign':
+                uses(s['rv'], acc)
+                if s['pl']['p']:
+                    uses(s['pl'], acc)
+            else:
+                uses(s, acc)
+        uses(fn.blocks[b]['term'], acc)
+        for l in acc:
+            use_blocks.setdefault(l, set()).add(b)
+    out = {}
+    for b in range(fn.n):
+        st = fn.blocks[b]['st']
+        for i, s in enumerate(st):
+            if s['k'] != 'assign' or s['pl']['p']:
+                continue
+            l = s['pl']['l']
+            if ndefs.get(l) != 1 or l in user or l == 0 or l <= fn.argc:
+                continue
+            if s['rv']['k'] not in ('use', 'binop', 'unop', 'cast'):
+                continue
+            if use_blocks.get(l, set()) - {b}:
+                continue
+            # no effect on a non-temporary between the definition and the end of the block's statements
+            clean = True
+            for s2 in st[i + 1:]:
+                if s2['k'] != 'assign' or s2['pl']['p'] or ndefs.get(s2['pl']['l']) != 1 or s2['pl']['l'] in user:
+                    acc = []
+                    uses(s2, acc)
+                    # a later effect is harmless only if the temporary is not used at or after it
+                    later = []
+                    for s3 in st[st.index(s2):]:
+                        uses(s3['rv'] if s3['k'] == 'assign' else s3, later)
+                    uses(fn.blocks[b]['term'], later)
+                    if l in later:
+                        clean = False
+                    break
+            if clean:
+                out[l] = s['rv']
     return out
 
 
